@@ -6,7 +6,7 @@ use crate::gen::{self, cases, programs};
 use crate::model::asm as refasm;
 use crate::model::ops::MOp::{self, *};
 use crate::model::ops::ALL;
-use crate::real::{make_vm, run_model, to_real_ops, to_real_solutions, ExecCase};
+use crate::real::{run_model, to_real_ops, to_real_solutions, ExecCase};
 use crate::{ensure, viol};
 use essential_asm::{FromBytesError, Op};
 use essential_vm::{Access, BytecodeMapped, GasLimit};
